@@ -4,6 +4,7 @@
 package ir
 
 import (
+	"go/constant"
 	"go/token"
 
 	"golang.org/x/tools/go/ssa"
@@ -59,37 +60,97 @@ type Result struct {
 	Stopped map[ssa.Instruction]bool
 }
 
+// threadable: block b ends in an If whose condition is (a negation chain over) a bool phi of b itself. Entering b
+// over a predecessor edge that carries a constant decides the branch (jump threading): the flag a helper's
+// inlined `return true/false` leaves behind is not a real choice point.
+func threadable(b *ssa.BasicBlock) (*ssa.Phi, bool, bool) {
+	if len(b.Instrs) == 0 {
+		return nil, false, false
+	}
+	ifi, ok := b.Instrs[len(b.Instrs)-1].(*ssa.If)
+	if !ok {
+		return nil, false, false
+	}
+	neg := false
+	v := ifi.Cond
+	for {
+		if u, isU := v.(*ssa.UnOp); isU && u.Op == token.NOT {
+			neg = !neg
+			v = u.X
+			continue
+		}
+		break
+	}
+	ph, isPhi := v.(*ssa.Phi)
+	if !isPhi || ph.Block() != b {
+		return nil, false, false
+	}
+	return ph, neg, true
+}
+
+// threadedSucc: the only successor index of b that can follow when b was entered from `from`; -1 if undetermined.
+func threadedSucc(b, from *ssa.BasicBlock) int {
+	ph, neg, ok := threadable(b)
+	if !ok || from == nil {
+		return -1
+	}
+	for k, p := range b.Preds {
+		if p != from {
+			continue
+		}
+		c, isC := ph.Edges[k].(*ssa.Const)
+		if !isC || c.Value == nil || c.Value.Kind() != constant.Bool {
+			return -1
+		}
+		t := constant.BoolVal(c.Value) != neg
+		if t {
+			return 0
+		}
+		return 1
+	}
+	return -1
+}
+
 // Reach computes the instructions reachable from the start points.
 func Reach(starts []Pt, o Opts) Result {
 	res := Result{Reached: map[ssa.Instruction]bool{}, Stopped: map[ssa.Instruction]bool{}}
 	type key struct {
-		b *ssa.BasicBlock
-		i int
+		b    *ssa.BasicBlock
+		i    int
+		from *ssa.BasicBlock // only distinguished for threadable blocks
+	}
+	type item struct {
+		p    Pt
+		from *ssa.BasicBlock
 	}
 	seen := map[key]bool{}
-	var work []Pt
-	push := func(p Pt) {
+	var work []item
+	push := func(p Pt, from *ssa.BasicBlock) {
 		if p.B == nil {
 			return
 		}
-		k := key{p.B, p.I}
+		if _, _, th := threadable(p.B); !th || p.I != 0 {
+			from = nil
+		}
+		k := key{p.B, p.I, from}
 		if !seen[k] {
 			seen[k] = true
-			work = append(work, p)
+			work = append(work, item{p, from})
 		}
 	}
 	for _, s := range starts {
-		push(s)
+		push(s, nil)
 	}
 	for len(work) > 0 {
-		p := work[len(work)-1]
+		it := work[len(work)-1]
 		work = work[:len(work)-1]
+		p := it.p
 		b := p.B
 		stopped := false
 		for i := p.I; i < len(b.Instrs); i++ {
 			in := b.Instrs[i]
 			if i > p.I {
-				k := key{b, i}
+				k := key{b, i, it.from}
 				if seen[k] {
 					stopped = true
 					break
@@ -112,11 +173,15 @@ func Reach(starts []Pt, o Opts) Result {
 		if stopped {
 			continue
 		}
+		only := threadedSucc(b, it.from)
 		for si, s := range b.Succs {
+			if only >= 0 && si != only {
+				continue
+			}
 			if o.EdgeOK != nil && !o.EdgeOK(b, si) {
 				continue
 			}
-			push(Pt{s, 0})
+			push(Pt{s, 0}, b)
 		}
 	}
 	return res
